@@ -11,9 +11,10 @@
   model parameter's default prior, which is outside what the property describes).
 -/
 import Proofs.C07Real
+import Proofs.C07Fitting
 
 namespace Taurex.C07
-open Taurex.Priors Taurex.OptimizerSM
+open Taurex.Priors Taurex.OptimizerSM Taurex.FittingSection
 
 section
 variable {ν α : Type} [DecidableEq ν] [LT α] [DecidableLT α] [OfNat α 0] [Mul α] [Transc α]
@@ -166,6 +167,53 @@ theorem writeback_id (init : St ν ℝ) (hwf : WF init) (hinv : Inv init) (ops :
   have : ¬ v.length ≠ (run init ops).compiled.length := by simpa using hlen
   simp only [this, if_false]
   rw [applyUpdate_writeback _ hw _ _ v hv]
+
+end
+
+/-! ### `[Fitting]` / `[Derive]` sections of an input file (`ParameterParser.setup_optimizer`) -/
+
+section
+variable {α : Type} [LT α] [DecidableLT α] [OfNat α 0] [Mul α] [Transc α]
+
+/-- **The set-up an input file asks for.**  If `setup_optimizer` runs through on a fresh optimizer (names unique across
+    the tables, derived names of model and observation disjoint), then the following `compile_params` leaves exactly
+    what `implied` computes from the settings the two sections *describe* (`sectionSettings`): every mentioned
+    parameter with the fit flag as written (False when no `:fit` line exists), the bounds as written — else the
+    written factors times the current value, else the declared bounds —, the mode as written, the written prior as its
+    user prior; every derived parameter with the compute flag as written; everything not mentioned at its declared
+    default.  `create_prior` is the arbitrary parameter `mkPrior`. -/
+theorem fitting_section_implied (mkPrior : OptVal α → Option (Prior α)) (model obs : List (Param String α))
+    (dm dob : List (Derived String)) (fitting derive : List (String × OptVal α))
+    (hwf : WF (initSt model obs dm dob)) (hdd : DisjD (initSt model obs dm dob : St String α))
+    (hok : (setupOptimizer mkPrior (initSt model obs dm dob) fitting derive).2.1 = .ok) :
+    ∃ grp dl, parseFitting mkPrior fitting [] = .ok grp ∧ splitAll derive = some dl ∧
+      (view (step (setupOptimizer mkPrior (initSt model obs dm dob) fitting derive).1 .compile).1,
+       (step (setupOptimizer mkPrior (initSt model obs dm dob) fitting derive).1 .compile).2) =
+        implied (sectionSettings (initSt model obs dm dob) grp (deriveRecs dl [])) := by
+  obtain ⟨grp, dl, hp, hsd, hset, hw'⟩ :=
+    setup_ok_settings mkPrior (initSt model obs dm dob) hwf hdd rfl fitting derive hok
+  refine ⟨grp, dl, hp, hsd, ?_⟩
+  rw [← hset]
+  exact compile_eq_implied _ hw'
+
+/-- **Unknown names and malformed keys in a section are errors.**  On any well-formed state:
+    a `[Fitting]` key that is not `name:option` raises before a single optimizer call is made (state unchanged);
+    a `[Fitting]` line naming a parameter found in neither table makes `setup_optimizer` raise;
+    a `[Derive]` key that is not `name:option` makes it raise;
+    a `[Derive]` line `name:compute` naming an unknown derived parameter makes it raise.
+    (Not errors in the code, and therefore not here: an unknown *option* after the colon — e.g. `T:fitt`, `mu:computed` —
+    is stored and ignored, and the line still counts as a mention of the parameter.) -/
+theorem fitting_unknown_is_error (mkPrior : OptVal α → Option (Prior α)) (s : St String α) (hw : WF s) (hd : DisjD s)
+    (fitting derive : List (String × OptVal α)) :
+    ((∃ kv ∈ fitting, splitKey kv.1 = none) →
+      (setupOptimizer mkPrior s fitting derive).2.1 ≠ .ok ∧ (setupOptimizer mkPrior s fitting derive).1 = s ∧
+      (setupOptimizer mkPrior s fitting derive).2.2 = []) ∧
+    ((∃ kv ∈ fitting, ∃ a b, splitKey kv.1 = some (a, b) ∧ ¬ Known s a) →
+      (setupOptimizer mkPrior s fitting derive).2.1 ≠ .ok) ∧
+    ((∃ kv ∈ derive, splitKey kv.1 = none) → (setupOptimizer mkPrior s fitting derive).2.1 ≠ .ok) ∧
+    ((∃ kv ∈ derive, ∃ a, splitKey kv.1 = some (a, "compute") ∧ ¬ KnownD s a) →
+      (setupOptimizer mkPrior s fitting derive).2.1 ≠ .ok) :=
+  setup_errors mkPrior s hw hd fitting derive
 
 end
 
